@@ -17,15 +17,16 @@
 #define BUSY(c)  (in_bcol <= (c) && (c) < in_jcol)
 #define SLAST(c) (in_xsup_end[in_supno[c]] - 1)
 #define ISFIRST(c) (in_xsup[in_supno[c]] == (c))
-/* element (row x) of panel column c (0 <= c < w) of the m-by-w work arrays */
-#define RF(c,x)  in_repfnz[(c)*in_m + (x)]
-#define MKR(c,x) in_spa_marker[(c)*in_m + (x)]
-#define PLS(c,x) in_panel_lsub[(c)*in_m + (x)]
-#define DN(c,x)  in_dense[(c)*in_m + (x)]
+/* element (row x) of panel column c (0 <= c < w) of the m-by-w work arrays; column offset c*m without a symbolic product (W <= 4) */
+#define COLOFF(c) ((c) == 0 ? 0 : (c) == 1 ? in_m : (c) == 2 ? 2*in_m : 3*in_m)
+#define RF(c,x)  in_repfnz[COLOFF(c) + (x)]
+#define MKR(c,x) in_spa_marker[COLOFF(c) + (x)]
+#define PLS(c,x) in_panel_lsub[COLOFF(c) + (x)]
+#define DN(c,x)  in_dense[COLOFF(c) + (x)]
 /* repfnz entry of row b (a column of a supernode): EMPTY or a column of b's supernode not after b */
 #define REPWF(c,b) (RF(c,b) == EMPTY || (SUPF(b) <= RF(c,b) && RF(c,b) <= (b)))
 /* number of rows of panel column c that carry its marker jcol+c (= number of entries its panel_lsub list holds) */
-#define MK1(c,r) (((r) < M && (r) < in_m && in_spa_marker[((r) < M && (r) < in_m) ? (c)*in_m + (r) : 0] == in_jcol + (c)) ? 1 : 0)
+#define MK1(c,r) (((r) < M && (r) < in_m && in_spa_marker[((r) < M && (r) < in_m) ? COLOFF(c) + (r) : 0] == in_jcol + (c)) ? 1 : 0)
 #define CNT(c) (MK1(c,0) + MK1(c,1) + MK1(c,2) + MK1(c,3) + MK1(c,4) + MK1(c,5) + MK1(c,6) + MK1(c,7))
 /* the U-segment of the busy supernode f.. in panel column c: zero in the pivot rows of columns f..v-1 */
 #define ZEROS_BEFORE(z,c,f,v) FA(z, M, ((f) <= z && z < (v)) ==> DN(c, in_inv_perm_r[z]) == 0.0)
@@ -39,6 +40,52 @@
 /* length of panel column c's list while loop 6 appends to column jj - jcol (its end is still in the local j) */
 #define CUR_END(c) ((c) == jj - jcol ? j : in_w_lsub_end[c])
 #define NEW_ENTRY_OK(end) ((g_wend0 <= g_x && g_x < (end)) ==> (0 <= PLS(g_c, g_x) && PLS(g_c, g_x) < in_m && MKR(g_c, PLS(g_c, g_x)) == in_jcol + g_c))
+/* ---- the contract, clause by clause (REQ_* = requires, ENS_* = ensures): used by the spec of the inductive unit panel_bmod_pc and by the
+ * harness of the bounded unit panel_bmod, so both state the same thing */
+#define REQ_args (0 <= in_pnum && in_pnum < NP && 1 <= in_m && in_m <= M && 1 <= in_w && in_w <= W && 0 <= in_jcol && in_jcol <= in_m - in_w && 0 <= in_bcol && in_bcol <= in_m)
+#define REQ_segrep_capacity (0 <= in_nseg0 && in_nseg0 <= in_m && (in_bcol < in_jcol ==> in_nseg0 + (in_jcol - in_bcol) <= in_m))
+#define REQ_storage (0 <= in_Glu.nzlmax && in_Glu.nzlmax <= LC && 0 <= in_Glu.nzlumax && in_Glu.nzlumax <= LUC)
+/* --- the segments found by the panel DFS: finished supernodes before the panel */
+#define REQ_segments (FA(q1, M, q1 < in_nseg0 ==> (0 <= KREP(q1) && KREP(q1) < in_jcol && 0 <= in_supno[KREP(q1)] && in_supno[KREP(q1)] < in_m && 0 <= KF(q1) && KF(q1) <= KREP(q1))))
+#define REQ_row_lists (FA(q2, M, q2 < in_nseg0 ==> (0 <= in_xlsub[KF(q2)] && in_xlsub[KF(q2)] <= in_xlsub_end[KF(q2)] && in_xlsub_end[KF(q2)] <= in_Glu.nzlmax && NSUPC(q2) <= NSUPR(q2) && NSUPR(q2) <= in_m)))
+#define REQ_rows_in_range (FA(p1, LC, 0 <= in_lsub[p1] && in_lsub[p1] < in_m))
+#define REQ_rows_distinct (g_s < in_nseg0 ==> FA(p2, LC, FA(p3, LC, (INLIST_AT(g_sd_kf, p2) && p2 < p3 && INLIST_AT(g_sd_kf, p3)) ==> in_lsub[p2] != in_lsub[p3])))
+#define REQ_value_blocks (FA(q4, M, q4 < in_nseg0 ==> (0 <= in_xlusup[KF(q4)] && in_xlusup[KF(q4)] <= LUC && NSUPR(q4)*NSUPC(q4) <= in_Glu.nzlumax - in_xlusup[KF(q4)])))
+#define REQ_repfnz_wf (FA(q5, M, FA(c1, W, (q5 < in_nseg0 && c1 < in_w) ==> (RF(c1, KREP(q5)) == EMPTY || (KF(q5) <= RF(c1, KREP(q5)) && RF(c1, KREP(q5)) <= KREP(q5))))))
+#define REQ_blocking (1 <= in_rowblk && in_rowblk <= TVC && 1 <= in_colblk && 1 <= in_maxsuper && in_maxsuper <= TVC && 0 <= in_tvlen && in_tvlen <= TVC && 2*in_m <= in_tvlen && in_w*(in_maxsuper + in_rowblk) <= in_tvlen && FA(q6, M, q6 < in_nseg0 ==> NSUPC(q6) <= in_maxsuper))
+#define REQ_tempv_zero_on_entry (FA(t1, TVC, in_tempv[t1] == 0.0))
+/* --- the busy supernodes: every column of bcol..jcol-1 belongs to a supernode lying inside the range */
+#define REQ_etree (FA(e1, M, e1 < in_m ==> (e1 < in_etree[e1] && in_etree[e1] <= in_m)))
+#define REQ_busy_supernodes (FA(b1, M, BUSY(b1) ==> (0 <= in_supno[b1] && in_supno[b1] < in_m && in_bcol <= in_xsup[in_supno[b1]] && in_xsup[in_supno[b1]] <= b1 && b1 <= SLAST(b1) && SLAST(b1) < in_jcol)))
+#define REQ_busy_contiguous (FA(b2, M, FA(b3, M, (BUSY(b2) && in_xsup[in_supno[b2]] <= b3 && b3 <= SLAST(b2)) ==> in_supno[b3] == in_supno[b2])))
+/* the climb lands on first columns: bcol starts a supernode, and so does the parent of a busy supernode's last column */
+#define REQ_climb_hits_first_columns ((in_bcol < in_jcol ==> ISFIRST(in_bcol)) && FA(b4, M, (BUSY(b4) && in_etree[SLAST(b4)] < in_jcol) ==> ISFIRST(in_etree[SLAST(b4)])))
+#define REQ_busy_pivot_rows (FA(b5, M, BUSY(b5) ==> (0 <= in_inv_perm_r[b5] && in_inv_perm_r[b5] < in_m)))
+#define REQ_busy_lists (FA(b6, M, BUSY(b6) ==> (0 <= in_xlsub[b6] && in_xlsub[b6] <= in_xlsub_end[b6] && in_xlsub_end[b6] <= in_Glu.nzlmax && (ISFIRST(b6) ==> (SLAST(b6) - b6 + 1 <= NSUPR_AT(b6) && NSUPR_AT(b6) <= in_m && SLAST(b6) - b6 + 1 <= in_maxsuper && 0 <= in_xlusup[b6] && in_xlusup[b6] <= LUC && NSUPR_AT(b6)*(SLAST(b6) - b6 + 1) <= in_Glu.nzlumax - in_xlusup[b6])))))
+#define REQ_busy_rows_distinct ((BUSY(g_v) && ISFIRST(g_v)) ==> FA(p4, LC, FA(p5, LC, (INLIST_AT(g_v, p4) && p4 < p5 && INLIST_AT(g_v, p5)) ==> in_lsub[p4] != in_lsub[p5])))
+#define REQ_busy_repfnz (FA(b8, M, FA(c2, W, (BUSY(b8) && c2 < in_w) ==> REPWF(c2, b8))))
+/* the m-by-w marker / list pair is consistent: panel_lsub[*,c] holds one entry per row that carries column c's marker */
+#define REQ_markers (FA(c3, W, c3 < in_w ==> in_w_lsub_end[c3] == CNT(c3)))
+/* ghost table: g_onch[c] == 1 iff busy column c lies on the etree chain that starts at the first column of its supernode and stays inside it */
+#define REQ_ghost_chain (FA(h1, M, BUSY(h1) ==> ((g_onch[h1] == 0 || g_onch[h1] == 1) && ((g_onch[h1] == 1) == (ISFIRST(h1) || EX(h2, M, BUSY(h2) && h2 < h1 && g_onch[h2] == 1 && in_etree[h2] == h1 && in_supno[h2] == in_supno[h1]))))))
+#define REQ_ghosts (0 <= g_s && g_s < M && 0 <= g_v && g_v < M && 0 <= g_t && g_t < TVC && 0 <= g_x && g_x < in_m && 0 <= g_c && g_c < in_w && 0 <= g_q && g_q < in_m)
+#define REQ_ghost_segment (g_s < in_nseg0 ==> (g_sd_krep == KREP(g_s) && g_sd_kf == KF(g_s) && g_sd_nsupr == NSUPR(g_s)))
+#define REQ_ghost_copy (g_rep0 == RF(g_c, g_x) && g_mark0 == MKR(g_c, g_x) && g_plsub0 == PLS(g_c, g_x) && g_wend0 == in_w_lsub_end[g_c] && g_segrep0 == in_segrep[g_q] && g_spin0 == in_spin[g_x])
+#define REQ_ghost_init (g_k.calls == 0 && g_k.calls1d == 0 && g_k.calls2d == 0 && g_k.awaits == 0 && g_k.kind_s == 0 && g_next_busy == in_bcol && FA(i1, M, g_is_busy_krep[i1] == 0))
+/* C02: one kernel call per segment of the DFS plus one per busy supernode appended; the ghost segment got the kernel and geometry it defines */
+#define ENS_every_segment_updated_once (g_k.calls == in_nseg && g_k.calls1d + g_k.calls2d == g_k.calls && in_nseg >= in_nseg0)
+#define ENS_kernel_of_segment (g_s < in_nseg0 ==> RECORD_OK)
+#define ENS_no_busy_supernode_nothing_else (in_bcol >= in_jcol ==> (in_nseg == in_nseg0 && g_k.awaits == 0 && RF(g_c, g_x) == g_rep0 && MKR(g_c, g_x) == g_mark0 && PLS(g_c, g_x) == g_plsub0 && in_w_lsub_end[g_c] == g_wend0 && in_spin[g_x] == g_spin0))
+#define ENS_climb_complete (in_bcol < in_jcol ==> (in_nseg > in_nseg0 && g_next_busy >= in_jcol))
+#define ENS_tempv_zero_on_exit (in_tempv[g_t] == 0.0)
+#define ENS_segrep_prefix_kept (g_q < in_nseg0 ==> in_segrep[g_q] == g_segrep0)
+#define ENS_segrep_appended ((in_nseg0 <= g_q && g_q < in_nseg) ==> in_segrep[g_q] == g_busy_krep[g_q >= in_nseg0 ? g_q - in_nseg0 : 0])
+#define ENS_repfnz_kept_outside_busy_reps (g_is_busy_krep[g_x] == 1 || RF(g_c, g_x) == g_rep0)
+#define ENS_markers_consistent (in_w_lsub_end[g_c] == CNT(g_c) && in_w_lsub_end[g_c] >= g_wend0)
+#define ENS_marker_only_set (MKR(g_c, g_x) == g_mark0 || MKR(g_c, g_x) == in_jcol + g_c)
+#define ENS_list_prefix_kept (g_x < g_wend0 ==> PLS(g_c, g_x) == g_plsub0)
+#define ENS_list_new_entries_marked (NEW_ENTRY_OK(in_w_lsub_end[g_c]))
+#define ENS_spin_only_cleared (in_spin[g_x] == g_spin0 || in_spin[g_x] == 0)
 #ifndef SPEC_EXPAND
 struct kern_rec { int calls, calls1d, calls2d, awaits, kind_s; int_t fsupc_s, krep_s, nsupc_s, nsupr_s, nrow_s; };
 #endif
